@@ -32,7 +32,7 @@ func C18(c *core.Ctx) error {
 		return err
 	}
 	names := []string{c18pkg, "~", "null", "true", "123", "1.5", "a-b", "a.b/c", "a_b", "github.com/Foo/Bar", "x/" + strings.Repeat("long", 80),
-		"a: b", "#x", "- x", "-x", "\"q\"", "'", "{a}", "[a]", "*a", "&a", "!t", "%", "@", "|", ">", " lead", "trail ", "a\nb", "yes", "0x1f", "1e3", "a#b", "a:b", "ünï", "a\tb", "?", "<<", "=", "null/x", "~/x", "a,b", "`a`", ".", "..", "a/../b", ""}
+		"a: b", "#x", "- x", "-x", "\"q\"", "'", "{a}", "[a]", "*a", "&a", "!t", "%", "@", "|", ">", " lead", "trail ", "a\nb", "yes", "0x1f", "1e3", "a#b", "a:b", "ünï", "a\tb", "?", "<<", "=", "null/x", "~/x", "a,b", "`a`", ".", "..", "a/../b", "", "example.com/m/a|b", "x|y|z", "a.b.c", "packages", "config|all"}
 	states := []string{"absent", "empty", "content", "dir", "symlink", "symlink-live-parent", "noparent"}
 	targets := []string{"default", "relative", "nested", "absolute"}
 	var cases []c18case
